@@ -273,6 +273,13 @@ def rule_d(ctx):
       seen, _ = g.reach(g.entry, blocked_nodes=tests, follow_exc=False)
       if ap[0].id in seen:
         problems.append(f'_apply reachable without the {desc} test')
+    # no normal return before the frozen test (a frozen field always yields
+    # its frozen value)
+    frozen_tests = [n for n in g.nodes if n.kind == 'test' and 'self.frozen' in A.unparse(n.ast, 200)]
+    if frozen_tests:
+      w = g.can_skip(g.entry, lambda n: n in frozen_tests)
+      if w:
+        problems.append(f'a path returns without consulting `frozen`: {w}')
     # the type check
     tc = {n.id for n in g.nodes if n.kind == 'test' and 'is_instance' in A.unparse(n.ast, 200)}
     if not tc:
